@@ -168,6 +168,11 @@ def gen_basis_cases(tier, seed):
                                   cen=rng.choice(cens) if rng.random() < 0.7 else None, bits=24))
         while sum(layout.size(s) for s in basis) > (14 if quick else 18):
             basis.pop()
+        if d % 5 == 1:
+            # tabulated contractions are normalised to the printed digits only: norm_cont within 4e-6 of one, not one
+            for s_ in basis:
+                s_["exps"] = s_["exps"][:1]
+                s_["coeffs"] = [[[rng.choice([1, -1]) * (2 ** 18 + rng.choice([1, -1])), -18]]]
         c = {"kind": "basis", "basis": basis}
         if d % 4 == 0:
             nt = sum(layout.size(s) for s in basis)
